@@ -179,4 +179,13 @@ PROPS = {
         "quick": {"shards": 16, "cases": 1200, "watchdog_s": 1500, "require": {"evaluations": 200000, "ok:dp_rewriting:supported": 2000, "err:parse:unsupported": 2000}},
         "thorough": {"shards": 16, "cases": 40000, "watchdog_s": 14400, "require": {"evaluations": 6000000}},
     },
+    "C17": {
+        "technique": "runtime monitoring: every generated relation (from the supported fragment, from DP rewriting, and over catalogues whose names need quoting) is rendered by the eight translators; oracle = the dialect's own sqlparser parser, the library's reader for the seven readable dialects (output names, order, types), and SQLite execution of the SQLite translation on a plain connection against the reference rendering",
+        "level_text": "Exploration: ~4k relations x 8 dialects per quick run. Per dialect: the text must parse with that dialect's parser; reading it back with the same translator must give the same column names in order and types containing the original ones; the SQLite text must run on an engine without any compatibility function and return the reference rows; reserved words, spaces, quotes and dots in table/column names must survive. Execution on MySQL, MS SQL, BigQuery, Hive, Databricks, Redshift and PostgreSQL themselves is impossible offline and is not covered.",
+        "level_note": "Trusted: sqlparser's dialect parsers (the only offline parsers for seven dialects), SQLite. Read-back types may be wider than the original (ranges are re-derived); narrower or different is a violation.",
+        "rule": ("per case 2 generated queries (x2), one DP-rewritten relation, one special-name query; evaluation = one (relation, dialect) translation; distinct non-trivial = distinct source queries."),
+        "assumptions": COMMON_ASSUME + ["acceptance by sqlparser's dialect parser stands for 'valid target-dialect SQL' where no engine is available"],
+        "quick": {"shards": 16, "cases": 300, "watchdog_s": 1500, "require": {"evaluations": 30000, "parsed:mysql": 3000, "read_back:postgresql": 2500, "sqlite_executions": 1500, "dp_rewritten_relations": 500, "special_name_relations": 500}},
+        "thorough": {"shards": 16, "cases": 8000, "watchdog_s": 14400, "require": {"evaluations": 800000}},
+    },
 }
